@@ -461,6 +461,36 @@ def mux_check(prop, tier, seed, replay):
                                         note="loom execution of the real code in which the credit is not conserved (WriterWakeDefs.Contract, first clause)"
                                         if prop == "C03" else "loom execution of the real code in which a unit of credit is lost or the waiting writer is not woken although it could proceed: the writer stalls")
                 violations.append((path, ("credit not conserved" if prop == "C03" else "credit lost / writer left sleeping") + " in loom execution " + json.dumps(rec)))
+        # Second leg "threads" (C02..C06): the application's calls race with the connection tasks for real (two real
+        # multiplexors on a multi-thread runtime; a stream dropped from a blocking thread while the peer reads, half-close
+        # from both ends at once, bursts beyond the window against a reader with pauses).  The driver reports what it
+        # observed; TLC decides every iteration against the contracts of spec/MuxStressDefs.tla.
+        threads = None
+        if prop in ("C02", "C03", "C04", "C05", "C06") and not replay:
+            sbin = os.path.join(vlib.build_harness(["mux_stress"]), "mux_stress")
+            iters = 250 if tier == "quick" else 6000
+            sout = os.path.join(work, "stress.ndjson")
+            rc, o = vlib.run([sbin, str(seed * 101 + int(prop[1:])), str(iters), sout], timeout=3000)
+            if rc != 0:
+                raise ToolError("mux_stress failed: " + o[-400:])
+            rv = vlib.validate_once("StressTrace", "StressTrace", sout, timeout=900, raw=True)
+            import re as _re
+            ms = _re.search(r'<<"STRESS", (\d+), "(.*)">>', rv["out"])
+            if not ms:
+                log(rv["out"][-2000:])
+                raise ToolError("StressTrace did not run to the end")
+            nrec = int(ms.group(1))
+            badrecs = json.loads(ms.group(2).encode().decode("unicode_escape"))
+            slines = open(sout).read().splitlines(keepends=True)
+            mine = [b for b in badrecs if any(x.split(".")[0] in (prop, "Stress") for x in b["viol"])]
+            threads = dict(iterations=nrec, scenarios=["abort", "abort_buf", "halfclose", "flow"], rejected=len(badrecs), rejected_speaking_about_this_property=len(mine))
+            evaluations += nrec
+            traces_ok += nrec - len(badrecs)
+            log(f"[threads] {nrec} iterations on a multi-thread runtime validated by TLC (StressTrace), {len(badrecs)} rejected")
+            for b in mine[:5]:
+                desc = f"threaded stress iteration violates {sorted(b['viol'])}: {slines[b['line'] - 1].strip()}"
+                path = vlib.save_replay(prop, "threads", [slines[b["line"] - 1]], note=desc)
+                violations.append((path, desc))
         wall = time.time() - t0
         # verdict
         for k in known_for(prop):
@@ -475,6 +505,7 @@ def mux_check(prop, tier, seed, replay):
             model_checking_runs=mc_runs, exhaustive=False,
             known_limitations_met=sorted(kf_seen), violations_found_by_the_application_level_oracle=api_hits,
             **({"loom_credit_race": loom_c03} if loom_c03 else {}),
+            **({"threaded_stress": threads} if threads else {}),
             nonconformance_attributed_to_other_properties=other[:10],
             explanation="TLC exhaustively checks the listed MC_* configurations of spec/PenguinMux.tla (design level); the simulator "
                         "executes harness-random schedules on the real penguin-mux code and TLC validates every recorded trace against "
